@@ -52,6 +52,8 @@ func init() {
 			Doc: "Streamable GET stream opened with Last-Event-ID (a resuming client): the server's stream/resumed greeting || SendNotification || ListRoots request, sent as soon as the stream's headers are in"})
 		RegisterScenario(&Scenario{Name: "c09/ls-tick/" + pl, Run: func(p []int, m []vsched.ChoicePoint) explore.Outcome { return c09LSStream(p, pl, true) },
 			Doc: "legacy SSE stream: one response || server-issued roots/list || keep-alive tick (a clock thread fires the earliest timer at an arbitrary point)"})
+		RegisterScenario(&Scenario{Name: "c09/ls-push/" + pl, Run: func(p []int, m []vsched.ChoicePoint) explore.Outcome { return c09LSPush(p, pl) },
+			Doc: "legacy SSE stream: one response (event queue) || one pushed notification (notification pump)"})
 		RegisterScenario(&Scenario{Name: "c09/ls-stream/" + pl, Run: func(p []int, m []vsched.ChoicePoint) explore.Outcome { return c09LSStream(p, pl, false) },
 			Doc: "legacy SSE stream: two responses (event queue) || server-issued roots/list"})
 		RegisterScenario(&Scenario{Name: "c09/post-sse/" + pl, Run: func(p []int, m []vsched.ChoicePoint) explore.Outcome { return c09PostSSE(p, pl) },
@@ -78,6 +80,7 @@ func init() {
 			c.DFSBoth("c09/get-stream/"+pl, b, 1)
 			c.DFSBoth("c09/get-resume/"+pl, b, 1)
 			c.DFSBoth("c09/ls-stream/"+pl, b, 0)
+			c.DFSBoth("c09/ls-push/"+pl, b, 1)
 			c.DFS("c09/ls-tick/"+pl, explore.Bounds{Preempt: c.Pick(2, 3), Dev: 1, POR: true})
 		}
 	})
@@ -492,6 +495,16 @@ func c09GetResume(prefix []int, pl string) explore.Outcome {
 	return finishOutcome(res, obs, viol, true)
 }
 
+// c09LSPush: the legacy SSE stream with two writers only, one response (event queue) and one pushed
+// notification (notification pump).
+func c09LSPush(prefix []int, pl string) explore.Outcome {
+	c09Push = true
+	defer func() { c09Push = false }()
+	return c09LSStream(prefix, pl, false)
+}
+
+var c09Push bool
+
 func c09LSStream(prefix []int, pl string, tick bool) explore.Outcome {
 	defer nonAtomicWriters()() // Write/Flush on a ResponseWriter take time: concurrent use is reported
 	var viol []explore.Violation
@@ -529,17 +542,19 @@ func c09LSStream(prefix []int, pl string, tick bool) explore.Outcome {
 				rp.P.Do(http.MethodPost, rp.Endpoint, "", []byte(`{"jsonrpc":"2.0","id":11,"method":"tools/call","params":{"name":"echo"}}`), nil)
 			})
 		}
-		vsched.Go("req2", func() {
-			rp.P.Do(http.MethodPost, rp.Endpoint, "", []byte(`{"jsonrpc":"2.0","id":12,"method":"tools/call","params":{"name":"roots"}}`), nil)
-		})
-		vsched.Go("answerer", func() {
-			id := hx.AwaitRequestID(rp.Stream, "roots/list")
-			if id != "" {
-				rp.P.Do(http.MethodPost, rp.Endpoint, "", []byte(fmt.Sprintf(`{"jsonrpc":"2.0","id":%s,"result":{"roots":[{"uri":"file:///a"}]}}`, id)), nil)
-			}
-		})
+		if !c09Push {
+			vsched.Go("req2", func() {
+				rp.P.Do(http.MethodPost, rp.Endpoint, "", []byte(`{"jsonrpc":"2.0","id":12,"method":"tools/call","params":{"name":"roots"}}`), nil)
+			})
+			vsched.Go("answerer", func() {
+				id := hx.AwaitRequestID(rp.Stream, "roots/list")
+				if id != "" {
+					rp.P.Do(http.MethodPost, rp.Endpoint, "", []byte(fmt.Sprintf(`{"jsonrpc":"2.0","id":%s,"result":{"roots":[{"uri":"file:///a"}]}}`, id)), nil)
+				}
+			})
+		}
 		var pushErr error
-		if !tick {
+		if c09Push {
 			// the notification pump is the third writer of the stream (after the event queue and the keep-alive)
 			vsched.Go("push", func() {
 				pushErr = r.SSE.SendNotification("sse-0001", "notifications/message", map[string]interface{}{"n": 1, "data": payload})
@@ -552,12 +567,16 @@ func c09LSStream(prefix []int, pl string, tick bool) explore.Outcome {
 		got, v := c09SSE(rp.Stream.Delivered(), "ls-stream")
 		viol = append(viol, v...)
 		want := map[string]func(map[string]interface{}) bool{
-			"init response":      func(m map[string]interface{}) bool { return m["id"] == "init-0" },
-			"roots response":     func(m map[string]interface{}) bool { return hasID(12)(m) && resultText(m) == "roots:1" },
-			"roots/list request": isMethod("roots/list"),
+			"init response": func(m map[string]interface{}) bool { return m["id"] == "init-0" },
+		}
+		if !c09Push {
+			want["roots response"] = func(m map[string]interface{}) bool { return hasID(12)(m) && resultText(m) == "roots:1" }
+			want["roots/list request"] = isMethod("roots/list")
 		}
 		if !tick {
 			want["echo response"] = func(m map[string]interface{}) bool { return hasID(11)(m) && resultText(m) == "echo:"+payload }
+		}
+		if c09Push {
 			want["pushed notification"] = func(m map[string]interface{}) bool {
 				p, _ := m["params"].(map[string]interface{})
 				return m["method"] == "notifications/message" && p["n"] == float64(1) && p["data"] == payload
